@@ -10,7 +10,17 @@
 #include <unistd.h>
 #include <vector>
 
+#if defined(VERIF_COVERAGE)
+extern "C" void __gcov_dump(void);
+#endif
 namespace vf {
+
+// drivers that leave through _exit() would lose their gcov counters (coverage builds only, tools/coverage.py)
+inline void cov_flush() {
+#if defined(VERIF_COVERAGE)
+    __gcov_dump();
+#endif
+}
 
 struct Out {
     FILE* f = stdout;
